@@ -952,7 +952,7 @@ theorem ticker_within_cache (c : CRLCfg) (he : c.enabled = true) (d t : Int) (h 
           Bool.and_false, Bool.false_eq_true, if_false, Bool.not_true] at h
         by_cases hd : d0 ≤ 0 <;> by_cases hr : 0 < r <;> simp [hd, hr] at h <;> omega
 
-/-- **tiny_cache_duration_accepted (D35).** A cache duration of 1 or 2 ns passes `Validate` with publication enabled
+/-- **tiny_cache_duration_accepted (D60).** A cache duration of 1 or 2 ns passes `Validate` with publication enabled
     and gives the generator a period of 0, for which `time.NewTicker` panics in `startCRLGenerator`: the CA accepts
     the configuration and then aborts during start-up (stage config observes the panic on the real authority). -/
 theorem tiny_cache_duration_accepted :
